@@ -29,12 +29,13 @@ Record cfg := {
   c_raise : list raise_op;       (* body of set_conn_error_and_wake *)
   c_first_wins : bool;           (* set_conn_error is get_or_init *)
   c_memo : bool;                 (* convert_to_connection_error stores handled_connection_error *)
+  c_sd_guard : bool;             (* ConnectionInner::shutdown starts with `if let Some(e) = get_conn_error() { return Err(handle_connection_error(e)) }` *)
   c_close : list (origin_pat * code_src);
   c_convert : list (origin_pat * conv_target) }.
 
 Definition gen_cfg : cfg :=
   {| c_poll := poll_body; c_hit := check_hit; c_handle := handle_body; c_raise := raise_body;
-     c_first_wins := store_first_wins; c_memo := convert_sets_memo;
+     c_first_wins := store_first_wins; c_memo := convert_sets_memo; c_sd_guard := shutdown_guard;
      c_close := close_arms; c_convert := convert_arms |}.
 
 (* ---- the two match tables *)
@@ -86,6 +87,7 @@ Inductive instr :=
 | I_memo                 (* if let Some(e) = self.handled_connection_error { return e } *)
 | I_register             (* self.waker().register(cx.waker()) *)
 | I_check                (* if let Some(err) = self.get_conn_error() { <hit branch> } *)
+| I_guard                (* shutdown: if let Some(err) = self.get_conn_error() { return Err(self.handle_connection_error(err)) } *)
 | I_point (n : N)        (* verif::preempt(..): no effect *)
 | I_set (e : err)        (* let err = self.set_conn_error(e) *)
 | I_close (e : err)      (* self.close_if_needed(err) *)
@@ -135,6 +137,11 @@ Definition call_prog (c : cfg) (d : dcall) : list instr :=
 Definition poll_prog (c : cfg) (calls : list dcall) (pend : bool) : list instr :=
   map pce_instr (c_poll c) ++ flat_map (call_prog c) calls ++ [I_end pend].
 
+(* ConnectionInner::shutdown (server shutdown / client shutdown / the shutdown(0) at the end of accept) *)
+Definition shutdown_prog (c : cfg) (r : option err) : list instr :=
+  (if c_sd_guard c then [I_guard] else []) ++
+  match r with Some e => call_prog c (CallHandle e) | None => [I_end false] end.
+
 Definition raise_prog (c : cfg) (e : err) : list sinstr := map (rop e) (c_raise c) ++ [S_ret].
 
 (* ---- the world *)
@@ -165,8 +172,9 @@ Fixpoint upd {A : Type} (l : list A) (i : nat) (x : A) : list A :=
 
 Inductive action :=
 | ABegin (calls : list dcall) (pend : bool)   (* the driver task starts a poll *)
-| ACall (e : err)                             (* the driver task runs an API call that is not a poll of the connection
-                                                 (shutdown, ...) and fails with e there: handle_connection_error(e) *)
+| AShutdown (r : option err)                  (* the driver task calls shutdown(): the guard, then the GOAWAY write which the
+                                                 transport refuses with e (r = Some e: handle_connection_error(e)) or accepts /
+                                                 is not needed (r = None: Ok(())) *)
 | AStep                                       (* the driver executes its next statement *)
 | ARaise (i : nat) (e : err)                  (* stream task i detects e and calls set_conn_error_and_wake *)
 | ASStep (i : nat).                           (* stream task i executes its next statement *)
@@ -189,6 +197,10 @@ Definition dstep (c : cfg) (w : world) : world :=
   | I_check :: rest =>
       {| cell := cell w; wslot := wslot w; woken := woken w; gen := gen w;
          dprog := match cell w with Some e => map (hop e) (c_hit c) | None => rest end;
+         parked := parked w; handled := handled w; streams := streams w; trace := trace w |}
+  | I_guard :: rest =>
+      {| cell := cell w; wslot := wslot w; woken := woken w; gen := gen w;
+         dprog := match cell w with Some e => call_prog c (CallHandle e) | None => rest end;
          parked := parked w; handled := handled w; streams := streams w; trace := trace w |}
   | I_point _ :: rest =>
       {| cell := cell w; wslot := wslot w; woken := woken w; gen := gen w; dprog := rest; parked := parked w;
@@ -261,10 +273,10 @@ Definition step (c : cfg) (w : world) (a : action) : world :=
              parked := false; handled := handled w; streams := streams w; trace := trace w |}
       | _ :: _ => w
       end
-  | ACall e =>
+  | AShutdown r =>
       match dprog w with
       | [] =>
-          {| cell := cell w; wslot := wslot w; woken := false; gen := S (gen w); dprog := call_prog c (CallHandle e);
+          {| cell := cell w; wslot := wslot w; woken := false; gen := S (gen w); dprog := shutdown_prog c r;
              parked := false; handled := handled w; streams := streams w; trace := trace w |}
       | _ :: _ => w
       end
